@@ -169,6 +169,20 @@ fn entries() -> Vec<Entry> {
             run: |c, x| r2b(co::crypto_onetimeauth_verify(&a16(x), &x[16..], &c.key)) },
         Entry { name: "OnetimeAuth::compute_and_verify", typed_prefix: 16, auth: au_ota,
             run: |c, x| r2b(dryoc::onetimeauth::OnetimeAuth::compute_and_verify(&a16(x), c.key, &x[16..].to_vec())) },
+        // incremental MAC verification: the message arrives in pieces of every size (every two-way split is tried)
+        Entry { name: "crypto_onetimeauth_init/update/final (every split)", typed_prefix: 16, auth: au_ota,
+            run: |c, x| { let m = &x[16..]; let mut all = true;
+                for i in 0..=m.len() { let mut st = co::crypto_onetimeauth_init(&c.key); co::crypto_onetimeauth_update(&mut st, &m[..i]); co::crypto_onetimeauth_update(&mut st, &m[i..]);
+                    let mut t = [0u8; 16]; co::crypto_onetimeauth_final(st, &mut t); all &= t[..] == x[..16]; }
+                all } },
+        Entry { name: "OnetimeAuth::new/update/verify (every split)", typed_prefix: 16, auth: au_ota,
+            run: |c, x| { let m = &x[16..]; let mut all = true;
+                for i in 0..=m.len() { let mut a = dryoc::onetimeauth::OnetimeAuth::new(c.key); a.update(&m[..i].to_vec()); a.update(&m[i..].to_vec()); all &= a.verify(&a16(x)).is_ok(); }
+                all } },
+        Entry { name: "Auth::new/update/verify (every split)", typed_prefix: 32, auth: au_auth,
+            run: |c, x| { let m = &x[32..]; let mut all = true;
+                for i in 0..=m.len() { let mut a = dryoc::auth::Auth::new(c.key); a.update(&m[..i].to_vec()); a.update(&m[i..].to_vec()); all &= a.verify(&a32(x)).is_ok(); }
+                all } },
         Entry { name: "crypto_sign_ed25519_pk_to_curve25519", typed_prefix: 32, auth: |c, _l, _r| Some(c.sign_pk.to_vec()),
             run: |_c, x| { let mut o = [0u8; 32]; r2b(ced::crypto_sign_ed25519_pk_to_curve25519(&mut o, &a32(x))) } },
         // keys supplied by the other party: public keys (any 32 bytes), and secret keys loaded from storage (any 64 bytes)
